@@ -2,6 +2,7 @@
 package tx
 
 import (
+	"bytes"
 	"encoding/json"
 	"errors"
 	"fmt"
@@ -193,6 +194,9 @@ func (t *Tx) GetUnconfirmedTx(dedup bool) ([]*pb.Transaction, error) {
 	if loadErr != nil {
 		return nil, loadErr
 	}
+	// a transaction that only reads a key version has to be packed before the one
+	// that overwrites that version
+	addReadBeforeOverwriteEdges(txMap, txGraph)
 	// 拓扑排序，输出的顺序是被依赖的在前，依赖方在后
 	outputTxList, unexpectedCyclic, _ := TopSortDFS(txGraph)
 	if unexpectedCyclic { // 交易之间检测出了环形的依赖关系
@@ -206,6 +210,55 @@ func (t *Tx) GetUnconfirmedTx(dedup bool) ([]*pb.Transaction, error) {
 		selectedTxs = append(selectedTxs, txMap[txid])
 	}
 	return selectedTxs, nil
+}
+
+// keyVersion identifies one version of one key: the key and the output that wrote it
+type keyVersion struct {
+	bucket    string
+	key       string
+	refTxid   string
+	refOffset int32
+}
+
+func versionOfInput(txIn *protos.TxInputExt) keyVersion {
+	return keyVersion{bucket: txIn.Bucket, key: string(txIn.Key), refTxid: string(txIn.RefTxid), refOffset: txIn.RefOffset}
+}
+
+// writesKey reports whether tx writes the key that txIn reads
+func writesKey(tx *pb.Transaction, txIn *protos.TxInputExt) bool {
+	for _, txOut := range tx.TxOutputsExt {
+		if txOut.Bucket == txIn.Bucket && bytes.Equal(txOut.Key, txIn.Key) {
+			return true
+		}
+	}
+	return false
+}
+
+// addReadBeforeOverwriteEdges adds, for every key version that a pool transaction
+// overwrites, an edge from each pool transaction that only reads that version to the
+// overwriter. The graph built by SortUnconfirmedTx only has producer -> consumer
+// edges; without these a block could carry the overwriter first, and the reader's
+// cited version is then stale when the block is replayed (verifyInputs fails).
+// Readers were admitted before the overwriter, so the edges follow admission order
+// and cannot close a cycle.
+func addReadBeforeOverwriteEdges(txMap map[string]*pb.Transaction, txGraph TxGraph) {
+	overwriter := map[keyVersion]string{}
+	for txID, tx := range txMap {
+		for _, txIn := range tx.TxInputsExt {
+			if writesKey(tx, txIn) {
+				overwriter[versionOfInput(txIn)] = txID
+			}
+		}
+	}
+	for txID, tx := range txMap {
+		for _, txIn := range tx.TxInputsExt {
+			w, ok := overwriter[versionOfInput(txIn)]
+			if !ok || w == txID || writesKey(tx, txIn) {
+				continue
+			}
+			txGraph[txID] = append(txGraph[txID], w)
+		}
+	}
 }
 
 // 加载所有未确认的订单表到内存
